@@ -52,3 +52,18 @@ class Rng(random.Random):
             if x < acc:
                 return it
         return table[-1][0]
+
+
+def gen_globals(rng, allow_exceptions=False):
+    """Process-global interpreter / numpy state under which one operation is called (fault kind GLOBALS)."""
+    g = {'errstate': None, 'printopts': None, 'warnfilter': None, 'rngstate': None}
+    which = rng.wpick([('printopts', 3), ('errstate', 3), ('warnfilter', 2), ('rngstate', 1), ('all', 1)])
+    if which in ('printopts', 'all'):
+        g['printopts'] = rng.randrange(0, 4)
+    if which in ('errstate', 'all'):
+        g['errstate'] = rng.pick(['ignore', 'ignore', 'warn', 'raise'] if allow_exceptions else ['ignore', 'ignore', 'warn'])
+    if which in ('warnfilter', 'all'):
+        g['warnfilter'] = rng.pick(['error', 'error', 'ignore'] if allow_exceptions else ['ignore'])
+    if which in ('rngstate', 'all'):
+        g['rngstate'] = rng.randrange(0, 2 ** 31)
+    return g
